@@ -5,5 +5,7 @@ CONSTANTS
   MCKinds <- KindsAll
   Classes <- AllClasses
   MCFuns <- SimFuns
+  MCHows <- EveryHow
   Canonical = FALSE
+  AliasInit = FALSE
   EmitOn = FALSE
